@@ -263,6 +263,12 @@ fn generate_deserialize_with_derive(
             .attrs
             .push(parse_quote!(#[serde(rename = #qualified_name)]));
 
+        // A variant without fields carries no parameters. Besides an absent or `null` `parameters`
+        // member, an empty object is a valid spelling of that, which a unit variant would refuse.
+        if matches!(variant.fields, Fields::Unit) {
+            variant.fields = Fields::Unnamed(parse_quote!((__ZlinkNoParams)));
+        }
+
         // Add serde rename attributes to fields based on their serialized names.
         if let (Fields::Named(fields), Some(field_info)) = (&mut variant.fields, field_info) {
             for (field, name_str) in fields.named.iter_mut().zip(&field_info.name_strings) {
@@ -302,7 +308,7 @@ fn generate_deserialize_with_derive(
             let variant_name = &variant.ident;
             match &variant.fields {
                 Fields::Unit => quote! {
-                    __ZlinkDeserHelper::#variant_name => #name::#variant_name
+                    __ZlinkDeserHelper::#variant_name(_) => #name::#variant_name
                 },
                 Fields::Named(fields) => {
                     let field_names: Vec<_> = fields
@@ -331,6 +337,64 @@ fn generate_deserialize_with_derive(
             where
                 D: serde::Deserializer<'de>,
             {
+                // "No parameters": an absent or `null` member, or an empty object.
+                struct __ZlinkNoParams;
+
+                impl<'de> serde::Deserialize<'de> for __ZlinkNoParams {
+                    fn deserialize<D>(deserializer: D) -> core::result::Result<Self, D::Error>
+                    where
+                        D: serde::Deserializer<'de>,
+                    {
+                        struct Visitor;
+
+                        impl<'de> serde::de::Visitor<'de> for Visitor {
+                            type Value = __ZlinkNoParams;
+
+                            fn expecting(
+                                &self,
+                                formatter: &mut core::fmt::Formatter<'_>,
+                            ) -> core::fmt::Result {
+                                formatter.write_str("no parameters")
+                            }
+
+                            fn visit_none<E>(self) -> core::result::Result<Self::Value, E> {
+                                Ok(__ZlinkNoParams)
+                            }
+
+                            fn visit_unit<E>(self) -> core::result::Result<Self::Value, E> {
+                                Ok(__ZlinkNoParams)
+                            }
+
+                            fn visit_some<D>(
+                                self,
+                                deserializer: D,
+                            ) -> core::result::Result<Self::Value, D::Error>
+                            where
+                                D: serde::Deserializer<'de>,
+                            {
+                                deserializer.deserialize_map(self)
+                            }
+
+                            fn visit_map<A>(
+                                self,
+                                mut map: A,
+                            ) -> core::result::Result<Self::Value, A::Error>
+                            where
+                                A: serde::de::MapAccess<'de>,
+                            {
+                                match map.next_key::<serde::de::IgnoredAny>()? {
+                                    None => Ok(__ZlinkNoParams),
+                                    Some(_) => Err(serde::de::Error::custom(
+                                        "unexpected parameters for an error without parameters",
+                                    )),
+                                }
+                            }
+                        }
+
+                        deserializer.deserialize_option(Visitor)
+                    }
+                }
+
                 #[derive(serde::Deserialize)]
                 #[serde(tag = "error", content = "parameters")]
                 enum __ZlinkDeserHelper #orig_impl_generics #orig_where_clause {
